@@ -326,11 +326,22 @@ func checkWatermarkPoll(c *core.Ctx) {
 						delBad = "the keys that fired are not deleted from timeKeys: they would fire again on every watermark"
 					}
 				}
-				if !strings.HasSuffix(firstStore, "[:0]") && !strings.HasSuffix(firstStore, "[:0:0]") && firstStore != "nil" {
-					resBad = "Poll must clear outputKeysSlice first (first store: " + firstStore + ")"
-				}
-				if len(o.Values) == 1 && !strings.Contains(o.Values[0].Canon(), "outputKeysSlice") {
-					resBad = "Poll must return the collected keys; it returns " + o.Show(o.Values[0])
+				// what is returned is the freshly collected list: built on the emptied slice (or nil), holding only what
+				// this walk appended — whether it was collected in the field itself or in a local stored back
+				if len(o.Values) == 1 {
+					rv := o.Values[0].Canon()
+					fresh := false
+					for _, base := range []string{slice + "[:0]", slice + "[:0:0]", "nil"} {
+						if rv == base || strings.HasPrefix(rv, "append("+base+";") {
+							fresh = true
+						}
+					}
+					if !fresh {
+						resBad = "Poll must return the keys collected by this call, on the emptied " + slice + " (returns " + rv + ", first store " + firstStore + ")"
+					}
+					if app > 0 && !strings.Contains(rv, "ITEM.GroupKey") {
+						resBad = "Poll must return the collected keys; it returns " + rv
+					}
 				}
 			}
 			c.Decide(bad == "" && len(outs) > 0, "ABS8", ckey, fn.Decl.Pos(), len(outs), "fires iff at end of stream or time ≤ watermark", bad)
